@@ -2,6 +2,8 @@ package vuego
 
 import (
 	"fmt"
+	"reflect"
+	"sort"
 	"strings"
 	"sync"
 
@@ -58,7 +60,7 @@ func (e *ExprEvaluator) getProgram(expression string) (*vm.Program, error) {
 	e.mu.RUnlock()
 
 	// Compile the expression
-	prog, err := expr.Compile(expression, expr.AllowUndefinedVariables(), expr.DisableBuiltin("count"))
+	prog, err := expr.Compile(expression, append([]expr.Option{expr.AllowUndefinedVariables(), expr.DisableBuiltin("count")}, orderedMapBuiltins...)...)
 	if err != nil {
 		return nil, fmt.Errorf("compile error: %w", err)
 	}
@@ -76,4 +78,56 @@ func (e *ExprEvaluator) ClearCache() {
 	e.mu.Lock()
 	defer e.mu.Unlock()
 	e.programs = make(map[string]*vm.Program)
+}
+
+// orderedMapBuiltins replaces expr's keys, values and toPairs builtins, which return the
+// entries of a map in Go's randomised iteration order, by versions that go through the keys
+// in ascending order: rendering the same template with the same data twice must give the
+// same bytes.
+var orderedMapBuiltins = []expr.Option{
+	expr.DisableBuiltin("keys"),
+	expr.DisableBuiltin("values"),
+	expr.DisableBuiltin("toPairs"),
+	expr.Function("keys", func(params ...any) (any, error) {
+		keys, _, err := sortedMapEntries("get keys from", params)
+		return keys, err
+	}),
+	expr.Function("values", func(params ...any) (any, error) {
+		_, values, err := sortedMapEntries("get values from", params)
+		return values, err
+	}),
+	expr.Function("toPairs", func(params ...any) (any, error) {
+		keys, values, err := sortedMapEntries("transform to pairs", params)
+		if err != nil {
+			return nil, err
+		}
+		out := make([]any, len(keys))
+		for i := range keys {
+			out[i] = []any{keys[i], values[i]}
+		}
+		return out, nil
+	}),
+}
+
+// sortedMapEntries returns the keys and values of the map in params[0], ordered by key.
+func sortedMapEntries(what string, params []any) ([]any, []any, error) {
+	if len(params) != 1 {
+		return nil, nil, fmt.Errorf("invalid number of arguments (expected 1, got %d)", len(params))
+	}
+	v := reflect.ValueOf(params[0])
+	if v.Kind() != reflect.Map {
+		return nil, nil, fmt.Errorf("cannot %s %s", what, v.Kind())
+	}
+	mapKeys := v.MapKeys()
+	sort.Slice(mapKeys, func(i, j int) bool {
+		a, b := mapKeys[i].Interface(), mapKeys[j].Interface()
+		return fmt.Sprintf("%v|%T", a, a) < fmt.Sprintf("%v|%T", b, b)
+	})
+	keys := make([]any, len(mapKeys))
+	values := make([]any, len(mapKeys))
+	for i, k := range mapKeys {
+		keys[i] = k.Interface()
+		values[i] = v.MapIndex(k).Interface()
+	}
+	return keys, values, nil
 }
